@@ -18,6 +18,7 @@ VERIF = driver.VERIF
 def run_property(pid, tier, seed):
     t0 = time.time()
     mod = importlib.import_module(f"props.{pid}")
+    os.environ.update(getattr(mod, "ENV", {}))
     eng = driver.build_engine()
     known = driver.load_known()
     drift_notes = driver.schema_drift(eng)
@@ -58,6 +59,36 @@ def run_property(pid, tier, seed):
     if canary == "unsat":
         faults.append("canary failed: global axioms are inconsistent")
 
+    # second chance under a more precise (still sound) float error model for the functions that need it
+    retry_env = getattr(mod, "RETRY_ENV", None)
+    if retry_env and any(o.result != "valid" and o.kind != "canary" for o in eng.obligations):
+        failing_fns = sorted({o.fn for o in eng.obligations if o.result != "valid" and o.kind != "canary" and ":" in o.fn
+                              and not o.fn.startswith("lemma:")})
+        saved_env = {k: os.environ.get(k) for k in retry_env}
+        os.environ.update(retry_env)
+        try:
+            eng2 = driver.build_engine()
+            for key in failing_fns:
+                eng2.verify(key)
+            names = {o.name for o in eng.obligations if o.result != "valid"}
+            eng2.obligations = [o for o in eng2.obligations if o.name in names and o.kind != "canary"]
+            solve.discharge(eng2.obligations, tier)
+            better = {}
+            for o in eng2.obligations:
+                better.setdefault(o.name, []).append(o)
+            for i, o in enumerate(eng.obligations):
+                if o.result != "valid" and o.name in better:
+                    cands = better[o.name]
+                    if cands and all(c.result == "valid" for c in cands) and \
+                            len(cands) == sum(1 for x in eng.obligations if x.name == o.name):
+                        o.result, o.backend = "valid", (cands[0].backend or "z3") + " (precise float model)"
+                        o.time = (o.time or 0) + sum(c.time or 0 for c in cands)
+        finally:
+            for k, v in saved_env.items():
+                if v is None:
+                    os.environ.pop(k, None)
+                else:
+                    os.environ[k] = v
     ctx = getattr(eng, "fn_ctx", {})
     by_fn_failed = {}
     canaries = [o for o in eng.obligations if o.kind == "canary"]
